@@ -1,1 +1,155 @@
-HEADER = "From Coq Require Import ZArith QArith List Bool.\nFrom CV Require Import Base.Dy Geom.Matrix Ctx.DashCheck Ctx.Context Ctx.Canvas Corr.C15.\nImport ListNotations.\nOpen Scope Q_scope.\n"
+"""C15 — Context and Canvas apply views, coordinate systems and state as documented."""
+import json, os
+import vlib
+
+META = dict(
+    level="proof",
+    technique="Coq proof over an exact rational model of canvas.Context / canvas.Canvas (state, stack, view compositions, "
+              "coordinate systems, draw matrices, layers, replay, Transform/Clip/Fit) + differential run of the Go code "
+              "(recording Renderer) against the model and against a point-map specification evaluated by vm_compute",
+    level_text="Theorems (Coq, closed under the global context) over all histories of Context calls and all four coordinate "
+               "systems: Push/Pop restore style, view, coordinate view and coordinate system exactly for any nesting of "
+               "balanced histories and an unmatched Pop is a no-op; every view call post-multiplies and its matrix is the "
+               "documented geometric map; the matrix handed to the renderer is CoordSystemView . view . "
+               "Translate(coordView(x,y)) (a point p appears at CoordSystemView(view(p + coordView(x,y)))), with the extra "
+               "reflections for text and images exactly in the flipped systems so that their orientation is that of the view "
+               "alone; each coordinate system puts the origin in its documented corner; setters change only the style and "
+               "never what was already handed on; the replay order is the stable sort of the recording order by z-index; "
+               "Transform/Clip move every point of every object by the same map; after Fit(margin) every layer with "
+               "non-empty bounds lies within the margins (partial: layers with Empty() bounds are skipped, refutation "
+               "witness proved). The model is tied to the Go code on every run by exact comparison of the recorded "
+               "sequences (objects, order, style tokens; matrices and sizes within 2^(K-36)) and the Go output is judged "
+               "directly against the point-map specification.",
+    level_note="Trusted: Coq kernel + vm_compute; the hand-written model (Ctx/Context.v, Ctx/Canvas.v, Ctx/DashCheck.v) is tied "
+               "by differential testing on generated histories, not by a proof about Go source. Rotate's (cos, sin), path "
+               "lengths/bounds, text bounds and image sizes are relational inputs taken from Go. Matrices are compared within "
+               "an explicit rational slack because Go rounds to binary64 and the model is exact. Colour conversion "
+               "(rgbaColor), FitImage, patterns'/gradients' own views, NaN/Inf arguments and singular views are not covered.",
+    harness=["c15"],
+)
+
+HEADER = ("From Coq Require Import ZArith QArith List Bool.\n"
+          "From CV Require Import Base.Dy Geom.Matrix Ctx.DashCheck Ctx.Context Ctx.Canvas Ctx.Spec Corr.C15.\n"
+          "Import ListNotations.\nOpen Scope Q_scope.\n")
+
+TIE = {1: "tie:direct-objects/order", 2: "tie:direct-styles", 4: "tie:direct-matrices", 8: "tie:replay-objects/order",
+       16: "tie:replay-styles", 32: "tie:replay-matrices", 64: "tie:final-style/coordsystem/stack", 128: "tie:final-views",
+       256: "tie:canvas-size/z", 512: "tie:size-after-Fit", 1024: "tie:records-after-Fit"}
+PROP = {1: "prop:direct-objects/order", 2: "prop:style-handed-to-renderer", 4: "prop:placement!=CSV(view(p+coordView(x,y)))",
+        8: "prop:replay-order-not-stable-by-z", 16: "prop:replay-style", 32: "prop:replay-placement",
+        64: "prop:Push/Pop-or-final-state", 128: "prop:Fit-content-outside-margin", 256: "prop:Fit-size-not-tight",
+        512: "prop:after-Fit-placement/order"}
+
+
+def names(table, fl):
+    return [n for b, n in table.items() if fl & b]
+
+
+def run(ctx):
+    pr, obligations, discharged = vlib.proof_stage(ctx, ["theories/Corr/C15.vo"])
+    if pr["broken"] or not pr["ok"]:
+        ctx.violation(dict(kind="proof-obligation-broken", theorem_or_file=pr["broken"], bad_axioms=pr["bad_axioms"], log=pr["log"][-2000:]),
+                      "proof obligation no longer checks: %s" % (pr["broken"] or pr["bad_axioms"]), found_input=False)
+    ncases = ctx.n(440, 6000)
+    args = ["-seed", str(ctx.seed), "-n", str(ncases), "-repo", vlib.REPO]
+    if ctx.replay:
+        rp = json.load(open(ctx.replay))
+        args = ["-seed", str(rp.get("seed", ctx.seed)), "-n", str(rp.get("index", 0) + 1), "-only", str(rp.get("index", 0)), "-repo", vlib.REPO]
+    rc, cases, err = vlib.harness_cases("c15", args)
+    if rc != 0 or not cases:
+        ctx.violation(dict(kind="harness-failed", rc=rc, stderr=err[-2000:]), "harness c15 failed (rc=%s)" % rc, found_input=False)
+        return ctx.finish("proof", dict(obligations=obligations, discharged=discharged), [])
+    rows = vlib.coq_eval_shards("c15-%d" % ctx.seed, HEADER, [c["coq"] for c in cases], shard=ctx.n(7, 25))
+    known = vlib.known_findings("C15")
+    prop_fail, tie_fail, invalid = [], [], []
+    flagcount = {}
+    nrec = nreplay = nexact = ncmp = 0
+    maxerr = 0
+    distinct, nontrivial = set(), set()
+    depth_hist, z_hist = {}, {}
+    for c, row in zip(cases, rows):
+        tie, prop, nd, nr, nex, ncm, errz, inv = row[:8]
+        nrec += nd
+        nreplay += nr
+        nexact += nex
+        ncmp += ncm
+        maxerr = max(maxerr, errz)
+        key = json.dumps([c["desc"]["W"], c["desc"]["H"], c["desc"]["ops"]])
+        distinct.add(key)
+        if nd > 0:
+            nontrivial.add(key)
+        d = min(c["desc"]["max_stack_depth"], 6)
+        depth_hist[d] = depth_hist.get(d, 0) + 1
+        z = c["desc"]["distinct_z"]
+        z_hist[z] = z_hist.get(z, 0) + 1
+        for n in names(TIE, tie) + names(PROP, prop):
+            flagcount[n] = flagcount.get(n, 0) + 1
+        if inv:
+            invalid.append(c)
+        if prop:
+            prop_fail.append((c, tie, prop))
+        elif tie:
+            tie_fail.append((c, tie, prop))
+
+    def describe(c, tie, prop):
+        return dict(seed=ctx.seed, index=c["i"], family=c["fam"], W=c["desc"]["W"], H=c["desc"]["H"], ops=c["desc"]["ops"],
+                    replay_view=c["desc"]["replay_view"], fit_margin=c["desc"]["fit_margin"],
+                    go_direct=c["desc"]["go_direct"], go_replay=c["desc"]["go_replay"], size_after_fit=c["desc"]["size_after_fit"],
+                    flags=names(TIE, tie) + names(PROP, prop))
+
+    def matches_known(c, tie, prop):
+        for f in known:
+            if f.get("status") == "open" and f.get("propmask", 0) and prop & ~f["propmask"] == 0 and f.get("cond") == "any":
+                return f
+        return None
+
+    reported = set()
+    new_prop = []
+    for c, tie, prop in prop_fail:
+        f = matches_known(c, tie, prop)
+        if f:
+            if f["key"] not in reported:
+                reported.add(f["key"])
+                ctx.known_finding("%s (e.g. seed %d case %d)" % (f["what"], ctx.seed, c["i"]))
+        else:
+            new_prop.append((c, tie, prop))
+    new_prop.sort(key=lambda t: len(t[0]["desc"]["ops"]))      # smallest failing histories first
+    for c, tie, prop in new_prop[:3]:
+        ctx.violation(dict(kind="property-fails-on-implementation", **describe(c, tie, prop)),
+                      "%s on a history of %d calls (family %s)" % (",".join(names(PROP, prop)), len(c["desc"]["ops"]), c["fam"]))
+    if not new_prop and tie_fail:
+        tie_fail.sort(key=lambda t: len(t[0]["desc"]["ops"]))
+        c, tie, prop = tie_fail[0]
+        ctx.violation(dict(kind="correspondence-broken", correspondence="Corr.C15.judge (model of Context/Canvas vs Go)",
+                           searched="%d histories judged against the point-map specification: none violates the property" % len(cases),
+                           **describe(c, tie, prop)), "model/implementation disagree: %s" % ",".join(names(TIE, tie)), found_input=False)
+    if invalid:
+        c = invalid[0]
+        ctx.violation(dict(kind="relational-input-invalid", what="math.Sincos result violates c^2+s^2=1 within 2^-40", **describe(c, 0, 0)),
+                      "Rotate's relational input invalid", found_input=False)
+    fams = vlib.histogram([c["fam"] for c in cases])
+    cov = dict(
+        obligations=obligations, discharged=discharged,
+        checker_cmd="make -C coq theories/Props/C15.vo (coqc 8.16.1, full .vo) ; coqc on generated cases files (vm_compute)",
+        trusted_base=vlib.trusted_base(pr, [
+            "correspondence harness harness/cmd/c15 (Go): recording canvas.Renderer, exact dyadic exchange of all float64 values",
+            "models written by hand: Ctx/Context.v, Ctx/Canvas.v, Ctx/DashCheck.v (tied by the differential run below, not proved against Go source)",
+            "relational inputs taken from Go: math.Sincos for Rotate (checked c^2+s^2=1 within 2^-40), Path.Length/Bounds, Text.Bounds, image sizes",
+            "matrix/size comparisons within the explicit slack 2^(K-36), 2^K > every magnitude in the run (binary64 rounding vs exact Q)"]),
+        evaluations=len(cases), distinct=len(distinct), distinct_nontrivial=len(nontrivial),
+        rule="one evaluation = one history (1..60 Context/Canvas calls) run on the Go code (Context over Canvas, Context over a "
+             "recording Renderer, RenderViewTo, Fit, RenderTo) and through the Coq model and the point-map specification; distinct by "
+             "(W, H, call sequence); non-trivial: at least one object reached the renderer",
+        programs=len(cases), records_direct=nrec, records_replayed=nreplay,
+        matrices_compared=ncmp, matrices_bit_exact=nexact, max_matrix_error="%d * 2^-60" % maxerr,
+        traces_validated_against_impl=len(cases), disagreements_checked=len(prop_fail) + len(tie_fail),
+        max_stack_depth_histogram=dict(sorted(depth_hist.items())), distinct_z_histogram=dict(sorted(z_hist.items())),
+        families=fams, flag_counts=flagcount,
+        theorems=pr["theorems"], assumptions_per_theorem=pr["assumptions"],
+        samples=[dict(ops=c["desc"]["ops"][:12], go_direct=c["desc"]["go_direct"][:3]) for c in cases[:3]],
+    )
+    return ctx.finish("proof", cov, [
+        "all arguments dyadic (exact in binary64 and in Q); views kept regular (|det| >= 2^-10) and bounded (entries <= 2^10) by the generator",
+        "dash offsets below minus one dash period are not generated (dashStart's behaviour there belongs to C05)",
+        "colours are valid premultiplied RGBA (rgbaColor is the identity on them); FitImage and non-finite arguments are not exercised",
+        "Go's map iteration order in Fit is irrelevant as long as no transformed bounds is Empty (regular matrices)"])
